@@ -24,7 +24,7 @@ pub fn prefixed() -> Vec<Plan> {
     menu(&["N,DC3", "I,DB2", "C2,DN", "C3,DI", "C2:1,DC2", "B2x1:1,DN", "B3x1,DC2", "N,N,DB2", "C2,FE2"])
 }
 pub fn stops() -> Vec<Plan> {
-    menu(&["N", "I,I", "C2", "C2:1", "C3,N", "B2x1", "B2x2:1", "N,C2", "V,W", "B3x1:0,N", "C1,I"])
+    menu(&["N", "I,I", "C2", "C2:1", "C3,N", "B2x1", "B2x2:1", "N,C2", "V,W", "B3x1:0,N", "C1,I", "B2x2:1f", "B3x2:0f"])
 }
 pub fn after_end() -> Vec<Plan> {
     menu(&["DN,N,C2,L", "DC2,I,H,B2x1", "DB2,N,L,C3", "DI,N,N", "FE2,C2,H", "DB3,B2x1,N"])
@@ -39,7 +39,7 @@ pub fn foreach_plans() -> Vec<Plan> {
     menu(&["FE1", "FE2", "FE3", "EF1", "EF2", "EF3", "FO1", "FO2", "FO3"])
 }
 pub fn chunky() -> Vec<Plan> {
-    menu(&["C2", "C3", "C1", "C2:1", "C3:0", "B2x2:1", "B3x2", "B2x3:0", "DC2", "DC3", "DB2", "DB3", "N,C2", "N", "DN", "C4", "B4x1", "B1x2"])
+    menu(&["C2", "C3", "C1", "C2:1", "C3:0", "B2x2:1", "B3x2", "B2x3:0", "DC2", "DC3", "DB2", "DB3", "N,C2", "N", "DN", "C4", "B4x1", "B1x2", "B2x2:1f", "B3x2:1f", "B3x3:0f"])
 }
 
 pub struct Set {
@@ -144,7 +144,7 @@ pub fn for_property(prop: &str, tier: Tier) -> Vec<(SysCfg, RunOpts)> {
             s.triples(&main_kinds, if q { &[2, 3] } else { &[2, 3, 4] }, &menu3, &d, &bounded(b3));
         }
         "C02" => {
-            let m = menu(&["DI", "DW", "DC2", "DC3", "DB2", "DB3", "EF1", "EF2", "EF3", "I,DB2", "C3,DI", "C2:1,DC2", "B3x1,DC2", "I,I", "C2", "C3,N", "B2x2:1", "V,W", "S,I,C2", "I,S,W"]);
+            let m = menu(&["DI", "DW", "DC2", "DC3", "DB2", "DB3", "EF1", "EF2", "EF3", "I,DB2", "C3,DI", "C2:1,DC2", "B3x1,DC2", "I,I", "C2", "C3,N", "B2x2:1", "V,W", "S,I,C2", "I,S,W", "B2x2:1f", "B3x2:1f"]);
             s.pairs(&main_kinds, if q { &l03 } else { &l04 }, &m, &m, &d, &complete2());
             s.triples(&main_kinds, &[3], &menu(&["DI", "DC2", "EF2", "I,DB2", "W,W"]), &d, &bounded(b3));
         }
@@ -195,6 +195,16 @@ pub fn for_property(prop: &str, tier: Tier) -> Vec<(SysCfg, RunOpts)> {
             let m = cat(&menu(&["DN", "DC2", "DB3", "FE2", "N,DC3", "C2,DN"]), &cat(&stops(), &cat(&skips(), &after_end())));
             s.pairs(&all, if q { &l13 } else { &l04 }, &m, &m, &d, &complete2());
             s.triples(&all, &[2, 3], &menu3b, &d, &bounded(b3));
+            // hangs after a panic of the wrapped iterator / a clone / a closure are progress violations too
+            for &kind in &wrapper_kinds() {
+                for len in [1usize, 2] {
+                    for pl in [["N,N", "N,N"], ["C2,N", "DN"], ["B2x2", "DC2"], ["DC2", "N"], ["FE2", "DN"]] {
+                        for k in 0..=len as u32 {
+                            s.add(SysCfg { kind, len, plans: pl.iter().map(|x| p(x)).collect(), fin: Final::Drop, fault: Fault::Next(k) }, complete2());
+                        }
+                    }
+                }
+            }
             // (b) freeze adversary
             let fm = menu(&["N,N", "C2,N", "B2x2", "DN", "S,N", "L,N", "FE2", "DC3"]);
             for &kind in &all {
@@ -285,6 +295,12 @@ pub fn for_property(prop: &str, tier: Tier) -> Vec<(SysCfg, RunOpts)> {
                     }
                 }
             }
+        }
+        "C17" => {
+            // queries racing with overshooting pulls, skips and drains: outcomes are compared between a build with
+            // debug assertions + overflow checks and one without
+            let m = menu(&["L", "H", "L,N,L", "H,C2,H", "C3", "C4,L", "B3x1", "B4x2:1f", "DC3", "N,N", "S,H", "FE2", "DB2,L", "I,H"]);
+            s.pairs(&all, &[1, 2, 3], &m, &m, &[Final::Seq], &complete2());
         }
         "selftest" => {
             let m = menu(&["N,N", "C2,N", "B2x2", "DN", "S,N", "L,N", "DC2"]);
